@@ -42,6 +42,11 @@ def extra_run(man, tier, seed):
         v = rng.choice(vs) if rng.random() < 0.5 else rng.uniform(-100, 100)
         z = rng.choice([0.0, -1.0, -2.5, 1e-10, 1.9999, 2.0, 2.0001, 8.0, 99.99, 100.0, 100.01]) if rng.random() < 0.3 else math.exp(rng.uniform(-6, 6.5))
         pairs.append((f'bessel_iv - {enc((v, z))}', f'hand.bessel_iv - {enc((v, z))}', 'bessel_iv', 1e-8, 1e-300))
+    # negative integer orders (the Skellam path: I_{-n} = I_n exactly) and orders around the |v| = 50 switch, on a grid of
+    # small and moderate arguments: a reflection term sin(pi v) K_v that is not exactly zero shows for small z
+    for v in [-1.0, -2.0, -3.0, -5.0, -10.0, -15.0, -20.0, -30.0, -49.0, -50.0, -51.0, -60.0, -75.0, -100.0, -51.5, -52.5, -60.5, 51.0, 75.0]:
+        for z in [1e-3, 0.01, 0.1, 0.5, 1.0, 2.0, 5.0, 10.0, 30.0, 60.0]:
+            pairs.append((f'bessel_iv - {enc((v, z))}', f'hand.bessel_iv - {enc((v, z))}', 'bessel_iv', 1e-8, 1e-300))
     for _ in range(100 if tier == 'quick' else 5000):
         x = math.exp(rng.uniform(-6, 6))
         pairs.append((f'ln_gammafn - {enc(x)}', f'hand.ln_gamma_spec - {enc(x)}', 'ln_gammafn', 1e-10, 1e-13))
